@@ -47,7 +47,7 @@ type SFlow struct {
 	port    int
 	addr    string
 	workers int
-	stop    bool
+	stop    uint32
 	stats   SFlowStats
 	conn    *net.UDPConn
 	pool    chan chan struct{}
@@ -144,7 +144,7 @@ func (s *SFlow) run() {
 		s.dynWorkers()
 	}()
 
-	for !s.stop {
+	for atomic.LoadUint32(&s.stop) == 0 {
 		b := sFlowBuffer.Get().([]byte)
 		s.conn.SetReadDeadline(time.Now().Add(1e9))
 		n, raddr, err := s.conn.ReadFromUDP(b)
@@ -172,7 +172,7 @@ func (s *SFlow) shutdown() {
 	}
 
 	// stop reading from UDP listener
-	s.stop = true
+	atomic.StoreUint32(&s.stop, 1)
 	logger.Println("stopping sflow service gracefully ...")
 	time.Sleep(1 * time.Second)
 	logger.Println("sFlow has been shutdown")
